@@ -191,3 +191,4 @@ package diff
 //@   loop 3 complete [C16.enum]
 // every function member of a package visited so far has been handed to processFunctionAndAnons (which marks it)
 //@   loop 2 invariant [C16.enum] forall m in #visited :: hasType(ssaPkg.Members[m], "*ssa.Function") ==> visited[dyn(ssaPkg.Members[m], "*ssa.Function")]
+//@   loop 3 invariant [C16.enum] forall m in #visited :: hasType(ssaPkg.Members[m], "*ssa.Function") ==> visited[dyn(ssaPkg.Members[m], "*ssa.Function")]
